@@ -91,6 +91,13 @@ func (s *Store) Biz(xid string, branch int64) [3]int64 {
 	return [3]int64{s.biz[bkey{xid, branch, 1}], s.biz[bkey{xid, branch, 2}], s.biz[bkey{xid, branch, 3}]}
 }
 
+// Biz2: the second row of every business step (kinds 11, 12, 13)
+func (s *Store) Biz2(xid string, branch int64) [3]int64 {
+	s.mu.Lock()
+	defer s.mu.Unlock()
+	return [3]int64{s.biz[bkey{xid, branch, 11}], s.biz[bkey{xid, branch, 12}], s.biz[bkey{xid, branch, 13}]}
+}
+
 func (s *Store) lockedByOther(k fkey, sid int) bool {
 	s.mu.Lock()
 	defer s.mu.Unlock()
@@ -113,6 +120,8 @@ type Session struct {
 	FaultedKind int
 	// for a failing COMMIT: 1 = the first COMMIT of the delivery, 2 = the second (proxy driver: the fence transaction's)
 	FaultedCommitNo int
+	FaultErr        int  // error kind of a failure that hits a business statement: 0 generic, 1 MySQL 1205, 2 MySQL 1213, 3 driver.ErrBadConn
+	Fired           bool // the injected failure was reached
 }
 
 // op journals one driver operation and decides whether it fails by injection.
@@ -133,12 +142,25 @@ func (s *Session) op(kind int, key *fkey) error {
 	n := s.NOps
 	s.NOps++
 	if n == s.Fault {
+		defer func() { s.Fired = true }()
 		s.FaultedKind = kind
 		if kind == OpCommit {
 			for _, k := range s.Trace {
 				if k == OpCommit {
 					s.FaultedCommitNo++
 				}
+			}
+		}
+		// the ERROR KIND of the failure matters only to code that inspects it; at a business statement the
+		// harness injects the kinds a real MySQL connection produces there
+		if kind == OpBiz {
+			switch s.FaultErr {
+			case 1:
+				return &mysql.MySQLError{Number: 1205, Message: "Lock wait timeout exceeded; try restarting transaction"}
+			case 2:
+				return &mysql.MySQLError{Number: 1213, Message: "Deadlock found when trying to get lock; try restarting transaction"}
+			case 3:
+				return driver.ErrBadConn
 			}
 		}
 		return errInjected
